@@ -4,15 +4,17 @@ From Coq Require Import String List NArith ZArith Bool.
 From J5V.lib Require Import Outcome Json JsonPrint Base64 Civil.
 From J5V.model Require Import CodecTypes CodecEnc CodecEncSpec.
 From J5V.gen Require ReadmeGen EncSwitchGen.
-From J5V.proofs Require Import CodecEncProofs.
+From J5V.proofs Require Import CodecEncProofs CodecEncLex CodecEncEmbed.
 Import ListNotations.
 Local Open Scope N_scope.
 
 (* The property at full strength.  Outside the model: the text strconv prints for a finite
    float is a JSON number; the inner encoding of an Any payload and the stored j5_json text
-   are JSON documents (any well-formed text, whitespace allowed). *)
-Definition json_text (t : bytes) : Prop := exists j, strict_parse t = Some j.
-Definition C08_full_statement : Prop :=
+   are JSON documents (ANY well-formed text: white space, non-canonical escapes — they are embedded
+   verbatim).  Proved in proofs/CodecEncEmbed.v: the strict reader reads a standalone JSON text the same
+   way inside a longer text, and the induction over the encoder is carried out with "the reader reads
+   this text as J" in place of "this text is the compact print of J". *)
+Theorem C08_full_statement :
   forall fmt_float any_inner env root m txt,
     float_text_ok fmt_float ->
     (forall tn pb t, any_inner tn pb = Ok t -> json_text t) ->
@@ -20,11 +22,21 @@ Definition C08_full_statement : Prop :=
     raw_root_gen env json_text root m ->          (* every stored j5_json text that is embedded *)
     encode fmt_float any_inner env root m = Ok txt ->
     exists J, strict_parse txt = Some J /\ wire_format fmt_float env root m J.
+Proof.
+  intros fmt_float any_inner env root m txt Hf Hi Hflat Hraw H.
+  exact (encode_wellformed_full fmt_float any_inner env Hf Hi Hflat root m txt H Hraw).
+Qed.
+Print Assumptions C08_full_statement.
+(* a standalone JSON text inside a longer text: the reader reads the same value and stops in
+   front of what follows *)
+Theorem C08_reader_embedded : forall t j rest f,
+  strict_parse t = Some j -> rest_ok rest -> (length t < f)%nat ->
+  exists r, sp_value f (t ++ rest) = Some (j, r ++ rest) /\ skip_ws (r ++ rest) = rest.
+Proof. exact strict_parse_embedded. Qed.
+Print Assumptions C08_reader_embedded.
 
-(* What is proved: the same, for embedded texts that are compact (no insignificant white
-   space, canonical escapes) — which is what the encoder itself produces (inner Any payloads)
-   and what the decoder stores (json.Compact).  Missing for the full statement: the
-   prefix-extension lemma of the strict reader for arbitrary well-formed embedded text. *)
+(* The compact case (what the encoder itself produces for inner payloads and what the decoder
+   stores, json.Compact): the output is exactly the compact print of the tree. *)
 Theorem C08_encode_wellformed_partial :
   forall fmt_float any_inner env root m txt,
     float_text_ok fmt_float -> inner_ok any_inner -> oneofs_flat env ->
@@ -62,6 +74,14 @@ Proof.
   exists J. split; [apply parse_print; exact Hw|exact Hs].
 Qed.
 Print Assumptions C08_scalar_wellformed.
+
+(* observe_at of the property: "re-read with a strict JSON tokenizer that keeps number/string
+   distinction" — the decoder family's model of encoding/json's Decoder.Token (lib/Json.v lex, tied
+   to the Go tokenizer by that family's CLex stream) reads the compact print of a well-formed tree
+   as exactly the tokens of that tree, nothing left over *)
+Theorem C08_tokenizer_reads_output : forall J, wfb J = true -> lex (print J) = (tokens_of J, false).
+Proof. exact lex_print. Qed.
+Print Assumptions C08_tokenizer_reads_output.
 
 (* the tie to the normative text and to the Go switches (regenerated on every run) *)
 Theorem C08_readme_table :
@@ -178,8 +198,10 @@ Theorem C08_oneof_type_plus_exactly_that_key : forall f env ps m j, wire_oneof f
                  j = JObj [(txt_type, JStr (p_json p)); (p_json p, jv)] /\ wire_value f env (p_ty p) v jv.
 Proof. exact spec_oneof_framing. Qed.
 Print Assumptions C08_oneof_type_plus_exactly_that_key.
+(* ... and for a j5 Any that stores JSON text, the value member is that text's JSON value *)
 Theorem C08_any_type_value : forall f env pb v j, wire_value f env (FAny pb) v j ->
-  exists m jv, v = VMsg m /\ j = JObj [(txt_type, JStr (any_type_name pb m)); (txt_value, jv)].
+  exists m jv, v = VMsg m /\ j = JObj [(txt_type, JStr (any_type_name pb m)); (txt_value, jv)] /\
+               (forall s, pb = false -> msg_get 3 m = Some (VBytes s) -> strict_parse s = Some jv).
 Proof. exact spec_any_framing. Qed.
 Print Assumptions C08_any_type_value.
 Theorem C08_names_are_json_names : forall f env ps m ms, wire_members f env ps m ms ->
